@@ -1,11 +1,8 @@
-import BumpVerif.Props.GenFnArith
+import BumpVerif.Props.GenFnBytes
 import BumpVerif.Gen.FnLimit
-/-! # The translated accounting / limit getters of `src/lib.rs` equal the hand-written model -/
+/-! # The translated limit getters of `src/lib.rs` equal the hand-written model -/
 namespace Bump
 open Rs Gen
-
-theorem gen_allocated_bytes (E M : Nat) (s : St) :
-    Gen.Fn.allocated_bytes E M s = .ok (s.a.allocatedBytes E) := rfl
 
 theorem gen_allocation_limit (E M : Nat) (s : St) :
     Gen.Fn.allocation_limit E M s = .ok s.a.limit := rfl
@@ -16,13 +13,6 @@ theorem gen_allocation_limit_remaining (E M : Nat) (s : St) :
   unfold Gen.Fn.allocation_limit_remaining limitRemaining
   cases s.a.limit <;> simp [gen_allocated_bytes, bindP]
 
-/-- `chunk_capacity`: `ptr - data` of the current chunk (the subtraction cannot wrap when `data ≤ ptr`) -/
-theorem gen_chunk_capacity (E M : Nat) (s : St) (h : (s.a.cur E).data ≤ (s.a.cur E).ptr) :
-    Gen.Fn.chunk_capacity E M s = .ok (chunkCapacity s.a E) := by
-  simp only [Gen.Fn.chunk_capacity, chunkCapacity, h, if_true]
-
-#print axioms gen_allocated_bytes
 #print axioms gen_allocation_limit
 #print axioms gen_allocation_limit_remaining
-#print axioms gen_chunk_capacity
 end Bump
